@@ -5,6 +5,7 @@
    the buffer out before the memstore is handed to the flusher.  [s_mark] counts the operations
    applied at the last rotation. *)
 From GoSST Require Import Base.Bytes Db.Logical Fs.Crash Fs.CrashFacts.
+From GoSST Require Import RecordIO.Format RecordIO.BufWriter RecordIO.BufWriterFacts Wal.Wal Wal.WalFacts Wal.LogProgram Wal.LogBufferFacts.
 
 Theorem C13_async_crash_prefix :
   forall (d d1 : disk) (base : kvmap) (acts : list saction) (s : sess),
@@ -19,3 +20,48 @@ Proof. exact reachable_recovers. Qed.
 
 Print Assumptions C13_async_crash_prefix.
 Print Assumptions C13_reachable_recovers.
+
+(* the in-process log buffer (recordio/bufio_vendor.go), byte level: for every buffer size and every program of Write /
+   Flush / Seek / Close calls the bytes that reached the file plus the buffered ones are exactly the bytes handed over,
+   in order, and the buffer never exceeds its size *)
+Theorem C13_buffer_preserves_the_stream :
+  forall (cap : nat) (ops : list bop) (buf : bytes), (length buf <= cap)%nat ->
+  written_by (concat (fst (bw_run cap buf ops))) ++ snd (bw_run cap buf ops) = buf ++ handed ops
+  /\ (length (snd (bw_run cap buf ops)) <= cap)%nat.
+Proof. exact bw_run_stream. Qed.
+Print Assumptions C13_buffer_preserves_the_stream.
+
+(* hence the log file a kill leaves at ANY boundary between two calls to the underlying writer is a byte prefix of the
+   log (whatever the buffer size and the sizes of the records), and it replays - behind the intact older files - to the
+   records completely contained in it: a prefix of the appended ones (C07_contained_is_prefix_and_complete) *)
+Theorem C13_log_file_is_a_prefix_at_every_boundary :
+  forall (c : codec), (forall x, decomp c (comp c x) = Ok x) -> (ctype c <= 3)%N ->
+  forall (cap : nat) (ops : list bop) (closed : list (list bytes)) (last : list bytes) (k : nat),
+  append_only ops = true ->
+  Forall (Forall (rec_ok c)) closed -> Forall (rec_ok c) last ->
+  handed ops = wal_file c last ->
+  let file := written_by (firstn k (concat (fst (bw_run cap [] ops)))) in
+  (exists rest, wal_file c last = file ++ rest)
+  /\ replay_files c (map (wal_file c) closed ++ [file]) = (concat closed ++ contained c last (lenN file), None).
+Proof. exact log_boundary_replay. Qed.
+Print Assumptions C13_log_file_is_a_prefix_at_every_boundary.
+
+(* after Flush or Close nothing is left in the buffer *)
+Theorem C13_flush_leaves_nothing_behind :
+  forall (cap : nat) (ops : list bop) (last : bop), last = BFlush \/ last = BClose ->
+  written_by (concat (fst (bw_run cap [] (ops ++ [last])))) = handed ops.
+Proof. exact bw_flushed_all. Qed.
+Print Assumptions C13_flush_leaves_nothing_behind.
+
+(* the same for the program the file writer really runs - Open (file header, flush), then per append the record header
+   and the stored payload as two writes, a flush after each synchronous one - with ANY buffer size, ANY mix of
+   synchronous and asynchronous appends, ANY record sizes, killed at ANY boundary *)
+Theorem C13_log_killed_at_any_boundary_replays_a_prefix :
+  forall (c : codec), (forall x, decomp c (comp c x) = Ok x) -> (ctype c <= 3)%N ->
+  forall (cap : nat) (closed : list (list bytes)) (rs : list (bool * bytes)) (k : nat),
+  Forall (Forall (rec_ok c)) closed -> Forall (rec_ok c) (map snd rs) ->
+  let file := written_by (firstn k (concat (fst (bw_run cap [] (log_ops c rs))))) in
+  replay_files c (map (wal_file c) closed ++ [file])
+  = (concat closed ++ contained c (map snd rs) (lenN file), None).
+Proof. exact log_program_boundary_replay. Qed.
+Print Assumptions C13_log_killed_at_any_boundary_replays_a_prefix.
